@@ -97,3 +97,10 @@ claim("C16",
       "refuted by the witness that was a genuine violation of the unrepaired code (fixed). Correspondence: exhaustive prefixes (<=2 quick, <=3 thorough, random "
       "to 8) over 16 failing / read-only operations followed by 12 probes compared with a fresh equal frame, data snapshot, observed alias state vs the Coq state machine.",
       NOTE, "Coq proof (state invariant over histories) + exhaustive-prefix correspondence check", "DESIGN.md 6/C16")
+claim("C13",
+      "Theorems (Props/C13.v): the value of an expression has one entry per flat record with the flat index; for EVERY list of rows and values of "
+      "matching length an assignment keeps rows, missing rows and per-row record counts, the assigned field read back on the flat view is exactly the "
+      "values, every other field is untouched, a wrong length is refused; a multi-line program on the nested rows IS the program on the flat table "
+      "(every line sees earlier assignments). Correspondence: generated 1-3 line programs (existing / new field, new nest, value expressions, "
+      "backticks, inplace or not, repeated labels incl. the flat-index-equals-index corner) vs the same program run by plain pandas on the flat table.",
+      NOTE, "Coq proof (positional assignment and program/flat commutation) + correspondence check against plain pandas", "DESIGN.md 6/C13")
